@@ -28,7 +28,7 @@ class C04(Prop):
     id = "C04"
     prop_file = "Props/C04.v"
     rule = ("sequences of 1-6 well-formed frames mixing own/broadcast/foreign-recipient/unknown-sender/unknown-kind, payloads dense in 0x68 and "
-            "in header-shaped sub-sequences; chunkings: one chunk, byte by byte, random cuts with 0-5 scheduler yields between chunks (arrival "
+            "in header-shaped sub-sequences; chunkings: one chunk, byte by byte, random cuts with 0-5 scheduler yields between chunks, `slow-line`: pauses of 0.5-4 s between some chunks (arrival "
             "interleaved with reader progress); thorough adds all 2^(n-1) cut sets of short streams.  Non-trivial = at least two frames or a "
             "skipped frame; distinct by frames+chunking.")
 
@@ -60,6 +60,14 @@ class C04(Prop):
             fs = [self._frame(rng, kinds) for _ in range(rng.randrange(1, 7))]
             total = sum(10 + len(f[5]) for f in fs)
             cases.append({"kind": "random-chunking", "frames": fs, "chunks": chunking(rng, total)})
+            if rng.random() < 0.3:
+                # the same stream on a slow line: pauses of up to a few seconds between some of the chunks (each well below the
+                # 10 s read timeout, also in sum within one frame)
+                ch = chunking(rng, total) or [[max(1, total // 2), 0], [total - max(1, total // 2), 0]]
+                ch = [list(c) for c in ch[:40]]
+                for c in rng.sample(ch, min(len(ch), rng.choice([1, 1, 2]))):
+                    c.append(rng.choice([0.5, 1.3, 2.5, 4.0]))
+                cases.append({"kind": "slow-line", "frames": fs, "chunks": ch})
         # look-alikes within one stream: frames of the same kind, addressing and length whose contents differ but have the
         # same XOR (permuted payload bytes, two bytes changed by the same mask), with other frames in between
         for _ in range(n // 6):
